@@ -723,9 +723,13 @@ func (ro *RedisOutput) parseAofCommand(replayQuit usync.WaitCloser, reader *bufi
 		bypass    = false
 		newArgv   [][]byte
 		reject    bool
-		// source transaction bookkeeping of the filters : a MULTI was seen and not yet its
-		// EXEC; that MULTI was forwarded; the current command is the EXEC that closes it
-		txnOpen, txnForwarded, keepExec bool
+		// the current command is MULTI or EXEC
+		txnBracket bool
+		// offset at which the stream entered the filtered database it is in (bypass) : a
+		// bracket forwarded from inside it must not move the resume position past the SELECT
+		// that a restarted parser has to see again
+		bypassFrom int64
+		cmdStart   = startOffset
 	)
 	defer ro.logger.Infof("command parser is stopped")
 
@@ -745,6 +749,7 @@ func (ro *RedisOutput) parseAofCommand(replayQuit usync.WaitCloser, reader *bufi
 		ignoresentinel := false
 		ignoreCmd := false
 		selectDB := -1
+		txnBracket = false
 
 		resp, incrOffset, err := client.MustDecodeOpt(decoder)
 		if err != nil {
@@ -758,6 +763,8 @@ func (ro *RedisOutput) parseAofCommand(replayQuit usync.WaitCloser, reader *bufi
 			return errors.Join(ErrCorrupted, err)
 		}
 
+		thisStart := cmdStart // offset at which this command begins
+		cmdStart = startOffset + incrOffset
 		sCmd, argv, err := client.ParseArgs(resp) // lower case
 		if err != nil {
 			err = fmt.Errorf("parse error : input(%s), err(%w)", ro.cfg.InputName, err)
@@ -780,7 +787,11 @@ func (ro *RedisOutput) parseAofCommand(replayQuit usync.WaitCloser, reader *bufi
 					ro.logger.Errorf("%s", err.Error())
 					return err
 				}
+				wasBypass := bypass
 				bypass = ro.outFilter.FilterDb(n) // filter following commands
+				if bypass && !wasBypass {
+					bypassFrom = thisStart
+				}
 				selectDB = n
 			} else if ro.outFilter.FilterCmd(sCmd) {
 				ignoreCmd = true
@@ -788,26 +799,18 @@ func (ro *RedisOutput) parseAofCommand(replayQuit usync.WaitCloser, reader *bufi
 				ignoresentinel = true
 			}
 
-			drop := bypass || ignoreCmd || ignoresentinel
-			// MULTI and EXEC belong to no database : a transaction that switches into or out of
-			// a filtered database must still be closed if and only if it was opened, otherwise
-			// the sender stays inside the transaction for ever (or sees an EXEC without MULTI)
-			keepExec = false
-			if sCmd == "multi" {
-				txnOpen, txnForwarded = true, !drop
-			} else if sCmd == "exec" && txnOpen {
-				txnOpen = false
-				drop = !txnForwarded
-				keepExec = txnForwarded
-			}
-			if drop {
+			// MULTI and EXEC belong to no database : the db filter never withholds them,
+			// otherwise a transaction that switches into (or out of) a filtered database is
+			// opened but never closed (or closed but never opened) at the sender
+			txnBracket = sCmd == "multi" || sCmd == "exec"
+			if (bypass && !txnBracket) || ignoreCmd || ignoresentinel {
 				ro.filterCounterAdd(1)
 				continue
 			}
 		}
 
 		newArgv, reject = ro.outFilter.FilterCmdKey(sCmd, argv)
-		if (bypass && !keepExec) || reject {
+		if (bypass && !txnBracket) || reject {
 			ro.filterCounterAdd(1)
 			continue
 		}
@@ -835,6 +838,9 @@ func (ro *RedisOutput) parseAofCommand(replayQuit usync.WaitCloser, reader *bufi
 			Args:   data,
 			Offset: startOffset + incrOffset,
 			Db:     currentDB,
+		}
+		if bypass && txnBracket {
+			cmdExec.Offset = bypassFrom
 		}
 		if len(syncDelayTestkey) > 0 {
 			if sCmd == "set" && len(argv) > 0 {
